@@ -269,6 +269,56 @@ func ruleRetryPath(c *Ctx) {
 	isUpd := func(l Loc) bool {
 		return callsThrough(c, info, l.Node, isBuntUpdate, 2)
 	}
+	// the "sent" flag, by role: a boolean local that is set to true only in a loop that performs an endpoint send
+	sentVars := map[types.Object]bool{}
+	notSentVars := map[types.Object]bool{}
+	inspectNoLit(fn.Decl.Body, func(n ast.Node) bool {
+		as, ok := n.(*ast.AssignStmt)
+		if !ok || len(as.Lhs) != 1 || len(as.Rhs) != 1 {
+			return true
+		}
+		id, ok := as.Lhs[0].(*ast.Ident)
+		if !ok {
+			return true
+		}
+		v, ok := info.ObjectOf(id).(*types.Var)
+		if !ok {
+			return true
+		}
+		if b, isB := v.Type().Underlying().(*types.Basic); !isB || b.Kind() != types.Bool {
+			return true
+		}
+		switch boolConst(info, as.Rhs[0]) {
+		case '0':
+			return true
+		case '1':
+			inSendLoop := false
+			for p := c.Parent(as); p != nil && p != ast.Node(fn.Decl.Body); p = c.Parent(p) {
+				var body *ast.BlockStmt
+				switch l := p.(type) {
+				case *ast.ForStmt:
+					body = l.Body
+				case *ast.RangeStmt:
+					body = l.Body
+				}
+				if body != nil && callsThrough(c, info, body, isEndpointSend, 2) {
+					inSendLoop = true
+					break
+				}
+			}
+			if inSendLoop {
+				sentVars[v] = true
+			} else {
+				notSentVars[v] = true
+			}
+		default:
+			notSentVars[v] = true
+		}
+		return true
+	})
+	for v := range notSentVars {
+		delete(sentVars, v)
+	}
 	nEdges := 0
 	skipAny := false
 	var where token.Pos
@@ -279,7 +329,7 @@ func ruleRetryPath(c *Ctx) {
 		for si := range b.Succs {
 			notSent := false
 			for _, f := range fg.edgeFacts(b, si) {
-				if id, ok := ast.Unparen(f.E).(*ast.Ident); ok && id.Name == "sent" && f.Neg {
+				if id, ok := ast.Unparen(f.E).(*ast.Ident); ok && sentVars[info.ObjectOf(id)] && f.Neg {
 					notSent = true
 				}
 				// !h.sendToAny(...): a helper that performs the sends and reports whether one succeeded
